@@ -1,8 +1,8 @@
 #!/bin/sh
-# thorough_all.sh [-P n] — run every check's thorough tier (for background runs via `vp run`); summary on stdout
+# thorough_all.sh [-P n] [ids…] — run every check's thorough tier (for background runs via `vp run`); summary on stdout
 P=3; if [ "$1" = "-P" ]; then P=$2; shift 2; fi
 cd "$(dirname "$0")/.."
 [ -f coq/Makefile ] || ./setup.sh >/dev/null 2>&1
 mkdir -p /tmp/thorough_$$
-ls manifest.d | grep '^C' | sed 's/.json//' | xargs -P $P -I{} sh -c 's=$(date +%s); timeout 5400 ./check {} --tier thorough > /tmp/thorough_'$$'/{}.log 2>&1; rc=$?; e=$(date +%s); echo "{} rc=$rc wall=$((e-s))s $(grep -c "^VIOLATION" /tmp/thorough_'$$'/{}.log) violations; $(grep "^\[{}\]" /tmp/thorough_'$$'/{}.log)"; [ $rc -ne 0 ] && grep "^VIOLATION" /tmp/thorough_'$$'/{}.log | head -3'
+{ if [ $# -gt 0 ]; then printf '%s\n' "$@"; else ls manifest.d | grep '^C' | sed 's/.json//'; fi; } | xargs -P $P -I{} sh -c 's=$(date +%s); timeout 5400 ./check {} --tier thorough > /tmp/thorough_'$$'/{}.log 2>&1; rc=$?; e=$(date +%s); echo "{} rc=$rc wall=$((e-s))s $(grep -c "^VIOLATION" /tmp/thorough_'$$'/{}.log) violations; $(grep "^\[{}\]" /tmp/thorough_'$$'/{}.log)"; [ $rc -ne 0 ] && grep "^VIOLATION" /tmp/thorough_'$$'/{}.log | head -3'
 rm -rf /tmp/thorough_$$
